@@ -382,7 +382,7 @@ CHECKS = {
         trusted=["engine checkpoint consistency (Pebble / RocksDB Checkpoint = a consistent snapshot) is the engines' contract",
                  "SameSstSound: restoreFromPath keeps a live .sst with the checkpoint's name when size and the last 256 KiB agree (explicit hypothesis of the file-level theorem as the `same` parameter; cannot be proved)",
                  "the file-level inode model (Z.Ckpt) is not differentially tied: only its consequences are observed by the oracle (checkpoint data files unchanged)"],
-        partial=["C14_state_at_index (restore yields exactly the state at index i) is oracle-only on the real engines", "remote-backup path exercised by a plain copy of the checkpoint directory (the rsync transfer itself is not run)", "mem engine has no checkpoint"],
+        partial=["C14_state_at_index (restore yields exactly the state at index i): proved at file level (the engine directory holds exactly the checkpoint's files); that the engines' view of those files is the state at index i is oracle-only on the real engines", "remote-backup path exercised by a plain copy of the checkpoint directory (the rsync transfer itself is not run)", "mem engine has no checkpoint"],
         assumptions=["C14_purge_safe: indexes do not decrease along the (term, index) order of checkpoint names (a later term's snapshot has a later index)"],
         level_text="Theorems: (file level) in the inode model of restoreFromPath - hard-linked sst files, copied other files - a restore leaves the checkpoint directory's view unchanged and establishes an invariant under which NO later engine activity (create / unlink / append to non-sst files) changes it, for every history of restores and writes and every `same` test; (purge) the real purge algorithm, modelled exactly and tied line by line to purgeOldCheckpoint on real directories, never removes one of the newest keepNum checkpoints and never removes a checkpoint at or above the latest recorded snapshot index. On real pebble and rocksdb stores the oracle checks that every restore yields exactly the logical state recorded at backup time and that no checkpoint's data files ever change.",
         level_note="restore exactness is oracle-level (engines are black boxes); SameSstSound is a hypothesis",
@@ -652,3 +652,10 @@ CHECKS['C11']['partial'] = [x.replace('error => nothing changed is a theorem for
                                       'error => nothing changed is a theorem for the KV / set / list / zset models and for HINCRBY of both hash models (Props/C11Models.lean); the other hash commands of the local-deletion model have no error outcome, '
                                       'those of the value-header model (value too large, undecodable size meta, expiry overflow) have no C11 theorem yet;')
                             for x in CHECKS['C11']['partial']]
+
+# C14, file level: after a restore the engine directory holds exactly the checkpoint's files (Node/CkptRestore.lean), over the pinned
+# statement structure of restoreFromPath / CopyFileForHardLink (Gen/Restore.lean)
+CHECKS['C14']['gens'] = CHECKS['C14'].get('gens', []) + ['Restore']
+CHECKS['C14']['level_text'] = CHECKS['C14']['level_text'] + (" RESTORE YIELDS THE CHECKPOINT'S FILES: C14_restore_yields_checkpoint_files — in the inode model of restoreFromPath, after a restore every "
+    "non-LOG name of the engine directory reads exactly what the checkpoint holds under it and names the checkpoint does not have are gone, for every previous content of the engine directory and every answer of "
+    "the isSameSSTFile heuristic; the statement structure of restoreFromPath (engine closed BEFORE the directory is listed, cleanup, copy) and of common.CopyFileForHardLink (replace unless same inode) is pinned by Gen/Restore.")
